@@ -575,8 +575,11 @@ class SharesManager(BaseManager):
             # to be rescanned
             shared_directory.items -= (shared_directory.items ^ shared_items)
 
-        self._build_term_map(shared_directory)
-        self._cleanup_term_map()
+        # Items that were replaced during the scan can stay alive for a while
+        # (items returned by a removed child directory reference that directory
+        # which still references them): rebuild the map instead of only adding
+        # the new items to it, otherwise queries return those files twice
+        self.rebuild_term_map()
 
     async def scan_directory_file_attributes(self, shared_directory: SharedDirectory):
         """Scans the file attributes for files in the given ``shared_directory``
